@@ -757,7 +757,7 @@ def c04_stubbed(prop):
                 heavy = grp != 1 and n >= 6
                 out.append(spec("verif_k04", "c04.rs+k04.rs", "k04_dispatch", "k04_dispatch_%s_%s" % (gname, fam), [fam, grp], u,
                                 tier="thorough" if heavy else "quick", n=n, fam=fam, level="kernel", stubbing=True,
-                                mem=(8 if n >= 7 else 2) if heavy else 1, mem_limit_gb=30 if heavy else 14, timeout=3600, optional=(heavy and n == 8),
+                                mem=(8 if n >= 7 else 2) if heavy else 1, mem_limit_gb=30 if heavy else 14, timeout=3600, optional=(heavy and n >= 7),
                                 role="dispatch_%s" % gname,
                                 what="L0 dispatch lemma %s n=%d on %s: the public entry point passes the SAME sequence(s) to *_ind and *_res, and they are %s" % (
                                     gname, n, "LutN" if kind == "s" else "Lut",
@@ -772,13 +772,13 @@ def c04_stubbed(prop):
             sfx = "" if maxlen == 2 else "_len1"
             out.append(spec("verif_k04", "c04.rs+k04.rs", "k04_walk_p", "k04_walk_p_%d%s" % (n, sfx), [n, t, maxlen], u,
                             tier=tr2, n=n, fam="kernel", level="kernel", mem=mem_for(n, 2), timeout=3000, role="walk_p",
-                            optional=(n >= 8 and maxlen == 2),
+                            optional=(n >= 8),
                             covers={"reached": "SATISFIED", "no candidate improves": "SATISFIED",
                                     "last candidate is the best": "SATISFIED" if (n >= 3 or maxlen == 1) else "UNSAT"},
                             what="L1 walk lemma P n=%d: p_canonization_ind over an ARBITRARY swap sequence of length <= %d on a symbolic table: final table, best = min(input, candidates), index of the first strict improvement; p_canonization_res decodes it into a permutation mapping the input to best (pointwise on a symbolic assignment), including 'no candidate improves'" % (n, maxlen)))
             out.append(spec("verif_k04", "c04.rs+k04.rs", "k04_walk_n", "k04_walk_n_%d%s" % (n, sfx), [n, t, maxlen], u,
                             tier=tr2, n=n, fam="kernel", level="kernel", mem=mem_for(n, 2), timeout=3000, role="walk_n",
-                            optional=(n >= 8 and maxlen == 2),
+                            optional=(n >= 8),
                             covers={"reached": "SATISFIED", "no candidate improves": "SATISFIED",
                                     "complemented candidate after the last flip is the best": "SATISFIED"},
                             what="L1 walk lemma N n=%d: n_canonization_ind / n_canonization_res over an ARBITRARY flip sequence of length <= %d (both output polarities after each flip)" % (n, maxlen)))
